@@ -37,6 +37,7 @@ type World struct {
 	CodeDist map[string]int
 	Weights  map[string]int // tx kind weights
 	Owner    map[types.Pubkey]Acct
+	Control  map[types.Pubkey]types.Address // control address where it differs from the owner's (set by accepted EditCandidate)
 	CoinOwner map[types.CoinID]Acct
 	Stakes   []stakeRef
 }
@@ -50,6 +51,7 @@ type stakeRef struct {
 func newWorld(n *Node, r *Rng) *World {
 	w := &World{N: n, R: r, nonce: map[types.Address]uint64{}, Coins: []types.CoinID{0}, TypeDist: map[string]int{}, CodeDist: map[string]int{}}
 	w.Owner = map[types.Pubkey]Acct{}
+	w.Control = map[types.Pubkey]types.Address{}
 	w.CoinOwner = map[types.CoinID]Acct{}
 	for i, c := range n.Genesis.Candidates {
 		w.Cands = append(w.Cands, c.PubKey)
@@ -416,6 +418,14 @@ func (w *World) Gen() *GenTx {
 			if o, ok := w.Owner[pk]; ok && w.R.Intn(6) != 0 {
 				a = o
 			}
+			if ca, ok := w.Control[pk]; ok && w.R.Intn(3) == 0 {
+				// the control address tries an owner-only operation
+				for _, x := range w.N.Accts {
+					if x.Addr == ca {
+						a = x
+					}
+				}
+			}
 			switch k {
 			case "editcand":
 				typ, data = transaction.TypeEditCandidate, transaction.EditCandidateData{PubKey: pk, RewardAddress: w.acct().Addr, OwnerAddress: a.Addr, ControlAddress: w.acct().Addr}
@@ -568,6 +578,17 @@ func (w *World) Observe(g *GenTx, r TxResult) {
 		w.Stakes = append(w.Stakes, stakeRef{g.Sender, d.PubKey, d.Coin})
 	case transaction.DeclareCandidacyData:
 		w.Stakes = append(w.Stakes, stakeRef{g.Sender, d.PubKey, d.Coin})
+	case transaction.EditCandidateData:
+		if d.ControlAddress != d.OwnerAddress {
+			w.Control[d.PubKey] = d.ControlAddress
+		} else {
+			delete(w.Control, d.PubKey)
+		}
+		for _, x := range w.N.Accts {
+			if x.Addr == d.OwnerAddress {
+				w.Owner[d.PubKey] = x
+			}
+		}
 	case transaction.LockData:
 		w.Locks = append(w.Locks, lockRef{g.Sender.Addr, d.Coin, new(big.Int).Set(d.Value), uint64(d.DueBlock)})
 	case transaction.AddLimitOrderData:
